@@ -35,7 +35,11 @@ Definition fstep (s : fstate) (o : op) : fstate :=
   | OUAdd g => fon (fun l => l ++ [g]) s
   | OUDel g => fon (filter (fun x => negb (grec_eqb x g))) s
   | OUDelAll => fon (fun _ => []) s
-  | OUBatchDel => match f_work s with Some w => mkF w (Some w) | None => s end
+  | OUBatchDel d =>
+      match f_work s with
+      | Some w => if existsb (fun g => is_soa g && (rd_tok (g_data g) =? rd_tok d)) w then mkF w (Some w) else s
+      | None => s
+      end
   | OUBatchAdd ttl d => fon (set_soa ttl d) s
   | OUFin ttl d => match f_work s with Some w => mkF (set_soa ttl d w) None | None => s end
   | OUDrop | OWDrop => mkF (f_comm s) None
